@@ -259,13 +259,16 @@ def pProxy (s : String) : Option (Option ProxyNet) :=
     pure (some ⟨k, ← pBool up, ← pBool tun⟩)
   | _ => none
 
-/-- `c12proxy <proxy> <the 17 arguments of c12route>` → `<route> via=<0|1>` (`Dispatch.routeP`,
-`viaProxy`); `<proxy>` = `-` | `http:<up>:<tunnel>` | `socks5:<up>:<tunnel>`. -/
+/-- `c12proxy <proxy> <the 17 arguments of c12route>` → `<route> via=<0|1|->` (`Dispatch.routeP`,
+`viaProxy`; `-` when the proxy is down: nothing to observe); `<proxy>` = `-` | `http:<up>:<tunnel>` | `socks5:<up>:<tunnel>`. -/
 def laneProxy : List String → String
   | px :: rest =>
     match pProxy px, parseRoute rest with
     | some px, some (cfg, req, net) =>
-      s!"{sRoute (routeP px cfg req net)} via={if viaProxy px cfg req net then 1 else 0}"
+      let via := match px with
+        | some p => if !p.up then "-" else if viaProxy px cfg req net then "1" else "0"
+        | none => "0"
+      s!"{sRoute (routeP px cfg req net)} via={via}"
     | _, _ => "bad-op"
   | _ => "bad-op"
 
